@@ -84,9 +84,9 @@ def _geometry(rng, nrng, kind):
         geo["mesh_shape"] = None
         geo["mesh_points"] = 0.5 * (lo + hi) + (nrng.random((npts, 2)) - 0.5) * span * rng.choice([0.7, 1.0, 1.3])
         r = rng.random()
-        if r < 0.04:
+        if r < 0.07:
             # a hub vertex with 34..40 neighbours (random point sets stop at about 15): "all Delaunay vertex sets" has no degree bound
-            m = rng.randint(34, 40) if rng.random() < 0.6 else rng.randint(126, 136)      # ... nor does it stop at one signed byte
+            m = rng.randint(34, 40) if rng.random() < 0.5 else rng.randint(126, 136)      # ... nor does it stop at one signed byte
             ang = np.linspace(0.0, 2.0 * np.pi, m, endpoint=False) + 0.002 * nrng.normal(size=m)
             rad = 0.5 * float(span.min()) * (1.0 + 5e-4 * nrng.normal(size=(m, 1)))      # convex rim: the hub sees every rim vertex
             rim = np.stack([np.sin(ang), np.cos(ang)], axis=1) * rad
